@@ -18,7 +18,7 @@ ASSUMPTIONS = [
     "messages formatted with a symbolic number are opaque placeholders",
 ]
 OUTSIDE = ["sequences longer than the bound", "the numeric behaviour of 10**x beyond positivity and monotonicity in the symbolic-pH obligations (counterexamples are replayed numerically)"]
-NMAX = {"quick": 5, "thorough": 8}
+NMAX = {"quick": 5, "thorough": 10}
 NPI = {"quick": 3, "thorough": 5}
 ITEM_TIMEOUT = {"quick": 900, "thorough": 3400}
 TIT = "KRHDECY"
